@@ -484,6 +484,53 @@ func extractC03() *lean {
 		}
 	}
 	l.def("signJWSSeq", "List String", c03StrList(signSeq), signSeq)
+	// package-level SignJWT: convertHeaders, the jwk guard (Raw into which type, refusal), jwt.Sign — in source order
+	var jwtSeq []string
+	for _, d := range jf.Decls {
+		fd, ok := d.(*ast.FuncDecl)
+		if !ok || fd.Name.Name != "SignJWT" || fd.Recv != nil {
+			continue
+		}
+		types := map[string]string{}
+		ast.Inspect(fd.Body, func(n ast.Node) bool {
+			if vs, ok := n.(*ast.ValueSpec); ok && vs.Type != nil {
+				for _, nm := range vs.Names {
+					types[nm.Name] = c03Src(fsetJ, vs.Type)
+				}
+			}
+			return true
+		})
+		type ev struct {
+			pos token.Pos
+			s   string
+		}
+		var evs []ev
+		ast.Inspect(fd.Body, func(n ast.Node) bool {
+			switch x := n.(type) {
+			case *ast.CallExpr:
+				fn := exprString(x.Fun)
+				switch {
+				case fn == "convertHeaders", fn == "jwt.Sign", fn == "hdr.JWK":
+					evs = append(evs, ev{x.Pos(), fn})
+				case strings.HasSuffix(fn, ".Raw") && len(x.Args) == 1:
+					arg := c03Src(fsetJ, x.Args[0])
+					evs = append(evs, ev{x.Pos(), fn + "(" + arg + "):" + types[strings.TrimPrefix(arg, "&")]})
+				}
+			case *ast.ReturnStmt:
+				if len(x.Results) == 2 {
+					if c, ok := x.Results[1].(*ast.CallExpr); ok && exprString(c.Fun) == "errors.New" {
+						evs = append(evs, ev{x.Pos(), "return-error " + c03Src(fsetJ, c.Args[0])})
+					}
+				}
+			}
+			return true
+		})
+		sort.Slice(evs, func(i, j int) bool { return evs[i].pos < evs[j].pos })
+		for _, e := range evs {
+			jwtSeq = append(jwtSeq, e.s)
+		}
+	}
+	l.def("signJWTSeq", "List String", c03StrList(jwtSeq), jwtSeq)
 	l.def("signJWSRawTargetType", "String", c03Str(rawTargetType), rawTargetType)
 	// the Crypto.SignJWS / SignJWT / SignDPoP / DecryptJWE / Decrypt / Resolve methods: how they obtain the key
 	var keyObt, keyObtLean []string
